@@ -303,6 +303,9 @@ func (mr *modelRun) runPregel(p *Plan, path, statePath string, in M) (M, string)
 	if max == 0 {
 		max = len(p.Nodes) + 10
 	}
+	if path == "" && p.RuntimeMax > 0 {
+		max = p.RuntimeMax // the limit given with the call wins, whether lower or higher
+	}
 	deliver("start", in)
 	for step := 0; ; step++ {
 		if _, ok := chans["end"]; ok {
